@@ -46,7 +46,8 @@ class Checker:
         self.sch = sch
         self.bad = []
         self.types = {}
-        for t in sch["types"]:
+        self.all_types = list(sch["types"]) + list((sch.get("_include") or {}).get("types", []))
+        for t in self.all_types:
             k = t["name"].lower()
             if k in self.types:
                 self.bad.append("duplicate-type-name")
@@ -348,7 +349,7 @@ class Checker:
             self.header(d["type"], ["length", "varData"], "data")
 
     def run(self):
-        for t in self.sch["types"]:
+        for t in self.all_types:
             self.public(t)
         self.header(self.sch.get("header_type") or "messageHeader", ["schemaId", "templateId", "version", "blockLength"], "message")
         mn, mi = set(), set()
